@@ -178,3 +178,347 @@ End StepsSame.
 
 Print Assumptions frag_step_same.
 Print Assumptions query_step_same.
+
+(* ================================================================== *)
+(* Part B  runs under a state override                                   *)
+(* ================================================================== *)
+Section OV.
+  Variable idna_raw : str -> str * bool.
+  Variable c : cfg.
+  Hypothesis Hrep : c_report c = false.
+  Hypothesis Hfail : c_fail c = false.
+  Variable inp : list rune.
+  Variable ov : option state.
+
+  Notation n := (n_inp inp).
+  Notation stepo := (step idna_raw c inp None ov).
+  Notation runo := (run idna_raw c inp None ov).
+  Notation rest := (rest_from inp).
+
+  Definition reacheso (m m' : mstate) : Prop := exists k, forall fuel, runo (k + fuel)%nat m = runo fuel m'.
+  Definition finisheso (m : mstate) (u : url) : Prop := exists k, runo k m = RUrl u.
+
+  Lemma reacheso_refl m : reacheso m m.
+  Proof using. exists 0%nat. reflexivity. Qed.
+  Lemma reacheso_trans m1 m2 m3 : reacheso m1 m2 -> reacheso m2 m3 -> reacheso m1 m3.
+  Proof using. intros [k1 H1] [k2 H2]. exists (k1 + k2)%nat. intros fuel. rewrite <- Nat.add_assoc, H1, H2. reflexivity. Qed.
+  Lemma reacheso_step m m' : stepo m = Cont m' -> m_eof m' = false -> reacheso m m'.
+  Proof using. intros H E. exists 1%nat. intros fuel. cbn [Nat.add]. apply run_cont; assumption. Qed.
+  Lemma reacheso_eq m m1 m2 : reacheso m m1 -> m1 = m2 -> reacheso m m2.
+  Proof using. intros H <-. exact H. Qed.
+  Lemma finisheso_step m m' : stepo m = Cont m' -> m_eof m' = true -> finisheso m (m_url m').
+  Proof using. intros H E. exists 1%nat. apply run_last; assumption. Qed.
+  Lemma finisheso_ret m u : stepo m = RetUrl u -> finisheso m u.
+  Proof using. intros H. exists 1%nat. cbn [run]. rewrite H. reflexivity. Qed.
+  Lemma reacheso_finisheso m m' u : reacheso m m' -> finisheso m' u -> finisheso m u.
+  Proof using. intros [k1 H1] [k2 H2]. exists (k1 + k2)%nat. rewrite H1. exact H2. Qed.
+  Lemma finisheso_eq m u1 u2 : finisheso m u1 -> u1 = u2 -> finisheso m u2.
+  Proof using. intros H <-. exact H. Qed.
+
+  Lemma finisheso_fuel st0 u u' :
+    finisheso (mk st0 (-1) false [] false false false u) u' ->
+    runo (fuel_of (length inp)) (mk st0 (-1) false [] false false false u) = RUrl u'.
+  Proof using.
+    intros [k H].
+    pose proof (run_never_out_of_fuel idna_raw c inp None ov st0 u) as Hne.
+    rewrite <- (run_mono idna_raw c inp None ov _ k _ Hne).
+    rewrite Nat.add_comm. rewrite run_mono by (rewrite H; discriminate). exact H.
+  Qed.
+
+  Ltac unfold_step :=
+    cbv beta iota zeta delta [step mk m_state m_ptr m_eof m_buf m_at m_br m_pw m_url overridden is_some].
+
+  Ltac quiet_enc :=
+    match goal with |- (if ?b1 then _ else _) _ = _ => destruct b1 end;
+    match goal with |- context [if invalid_pct ?l then _ else _] => destruct (invalid_pct l) end;
+    cbv beta; repeat (rewrite (PhaseLemmas.mherr_quiet c Hrep Hfail); cbv beta).
+
+  (* ---------------- PathStart / PathSt ---------------- *)
+  Lemma step_pathstart_slash_o p buf a br pw u l :
+    (-1 <= p)%Z -> rest (p + 1) = 47 :: l ->
+    stepo (mk PathStart p false buf a br pw u) = Cont (mk PathSt (p + 1) false buf a br pw u).
+  Proof using Hrep Hfail.
+    intros Hp Hr. destruct (rest_uncons inp (p + 1)%Z _ _ ltac:(lia) Hr) as [Hc [Hr' Hn]].
+    unfold_step. replace (n <=? p + 1)%Z with false by lia. cbv beta iota. rewrite Hc.
+    replace (47 =? 92) with false by reflexivity. replace (47 =? 63) with false by reflexivity.
+    replace (47 =? 35) with false by reflexivity. replace (47 =? 47) with true by reflexivity.
+    rewrite !andb_false_r. cbn [negb andb].
+    destruct (IsSpecialScheme c u && negb (c_skipTrailSlash c)); reflexivity.
+  Qed.
+
+  Lemma step_path_char_o p buf a br pw u x l :
+    c_singlePct c = false ->
+    (-1 <= p)%Z -> rest (p + 1) = x :: l -> path_char c (IsSpecialScheme c u) x = true ->
+    stepo (mk PathSt p false buf a br pw u) = Cont (mk PathSt (p + 1) false (buf ++ [x]) a br pw u).
+  Proof using Hrep Hfail.
+    intros Hsp Hp Hr Hx. destruct (rest_uncons inp (p + 1)%Z _ _ ltac:(lia) Hr) as [Hc [Hr' Hn]].
+    unfold path_char in Hx.
+    apply andb_true_iff in Hx. destruct Hx as [Hx H5]. apply andb_true_iff in Hx. destruct Hx as [Hx H4].
+    apply andb_true_iff in Hx. destruct Hx as [Hx H3]. apply andb_true_iff in Hx. destruct Hx as [H1 H2].
+    apply negb_true_iff in H1, H2, H3, H4, H5.
+    unfold_step. replace (n <=? p + 1)%Z with false by lia. cbv beta iota. rewrite Hc.
+    unfold isSpecialSchemeAndBackslash. rewrite H1, H2, H3, H4. cbn [negb orb andb]. rewrite ?andb_false_r.
+    quiet_enc; rewrite ?(pei_id c _ x Hsp H5), ?(pe_id c _ x H5); reflexivity.
+  Qed.
+
+  Lemma step_path_slash_o p buf a br pw u l :
+    (-1 <= p)%Z -> rest (p + 1) = 47 :: l ->
+    stepo (mk PathSt p false buf a br pw u) = Cont (mk PathSt (p + 1) false [] a br pw (path_commit c u buf true)).
+  Proof using Hrep Hfail.
+    intros Hp Hr. destruct (rest_uncons inp (p + 1)%Z _ _ ltac:(lia) Hr) as [Hc [Hr' Hn]].
+    unfold_step. replace (n <=? p + 1)%Z with false by lia. cbv beta iota. rewrite Hc.
+    unfold isSpecialSchemeAndBackslash. replace (47 =? 92) with false by reflexivity.
+    rewrite !andb_false_r.
+    replace (47 =? 47) with true by reflexivity. replace (47 =? 63) with false by reflexivity.
+    replace (47 =? 35) with false by reflexivity. cbn [orb negb andb].
+    unfold path_commit. cbv zeta.
+    destruct (isDoubleDotPathSegment buf); [reflexivity|]. destruct (isSingleDotPathSegment buf); reflexivity.
+  Qed.
+
+  Lemma step_path_eof_o p buf a br pw u :
+    (-1 <= p)%Z -> rest (p + 1) = [] ->
+    stepo (mk PathSt p false buf a br pw u) = Cont (mk PathSt (p + 1) true [] a br pw (path_commit c u buf false)).
+  Proof using Hrep Hfail.
+    intros Hp Hr. pose proof (rest_empty inp (p + 1)%Z ltac:(lia) Hr) as Hn.
+    unfold_step. replace (n <=? p + 1)%Z with true by lia. cbv beta iota.
+    unfold isSpecialSchemeAndBackslash. replace (rune_error =? 92) with false by reflexivity.
+    rewrite !andb_false_r.
+    replace (rune_error =? 47) with false by reflexivity. replace (rune_error =? 63) with false by reflexivity.
+    replace (rune_error =? 35) with false by reflexivity.
+    cbn [orb negb andb]. unfold path_commit. cbv zeta.
+    destruct (isDoubleDotPathSegment buf); [reflexivity|]. destruct (isSingleDotPathSegment buf); reflexivity.
+  Qed.
+
+  Lemma seg_loop_o : forall seg p buf a br pw u tl,
+    c_singlePct c = false ->
+    (-1 <= p)%Z -> rest (p + 1) = seg ++ tl -> forallb (path_char c (IsSpecialScheme c u)) seg = true ->
+    reacheso (mk PathSt p false buf a br pw u) (mk PathSt (p + len seg) false (buf ++ seg) a br pw u).
+  Proof using Hrep Hfail.
+    induction seg as [|x l IH]; intros p buf a br pw u tl Hsp Hp Hr Hl.
+    - rewrite len_nil, Z.add_0_r, app_nil_r. apply reacheso_refl.
+    - cbn [forallb] in Hl. apply andb_true_iff in Hl. destruct Hl as [Hx Hl].
+      cbn [app] in Hr. destruct (rest_uncons inp (p + 1)%Z x _ ltac:(lia) Hr) as [Hc [Hr' Hn]].
+      eapply reacheso_trans.
+      + eapply reacheso_step; [apply (step_path_char_o p buf a br pw u x _ Hsp Hp Hr Hx)|reflexivity].
+      + eapply reacheso_eq; [apply (IH (p + 1)%Z _ a br pw _ tl Hsp ltac:(lia) Hr' Hl)|].
+        rewrite len_cons, <- app_assoc. cbn [app]. f_equal. lia.
+  Qed.
+
+  (* the whole path text, up to the end of the input *)
+  Theorem path_phase_o : forall segs seg p a br pw u,
+    c_singlePct c = false ->
+    (-1 <= p)%Z -> rest (p + 1) = seg ++ flat_map (fun s => 47 :: s) segs ->
+    segs_text_ok c (IsSpecialScheme c u) (seg :: segs) = true ->
+    finisheso (mk PathSt p false [] a br pw u) (commits c u seg segs).
+  Proof using Hrep Hfail.
+    induction segs as [|s1 segs IH]; intros seg p a br pw u Hsp Hp Hr Hg.
+    - cbn [flat_map] in Hr. unfold segs_text_ok in Hg. cbn [forallb] in Hg. rewrite andb_true_r in Hg.
+      eapply reacheso_finisheso; [apply (seg_loop_o seg p [] a br pw u _ Hsp Hp Hr Hg)|].
+      cbn [app commits]. pose proof (rest_app inp (p + 1)%Z _ _ ltac:(blia) Hr) as Hr'.
+      replace (p + 1 + len seg)%Z with (p + len seg + 1)%Z in Hr' by ring.
+      pose proof (len_nonneg seg) as Hl.
+      eapply finisheso_eq.
+      + eapply finisheso_step; [apply (step_path_eof_o (p + len seg)%Z _ a br pw _ ltac:(blia) Hr')|reflexivity].
+      + reflexivity.
+    - cbn [flat_map] in Hr. cbn [app] in Hr.
+      unfold segs_text_ok in Hg. cbn [forallb] in Hg. apply andb_true_iff in Hg. destruct Hg as [Hch Hgs].
+      eapply reacheso_finisheso; [apply (seg_loop_o seg p [] a br pw u _ Hsp Hp Hr Hch)|].
+      cbn [app]. pose proof (rest_app inp (p + 1)%Z _ _ ltac:(blia) Hr) as Hr'.
+      replace (p + 1 + len seg)%Z with (p + len seg + 1)%Z in Hr' by ring.
+      pose proof (len_nonneg seg) as Hl.
+      eapply reacheso_finisheso.
+      + eapply reacheso_step; [apply (step_path_slash_o (p + len seg)%Z _ a br pw _ _ ltac:(blia) Hr')|reflexivity].
+      + destruct (rest_uncons inp (p + len seg + 1)%Z _ _ ltac:(blia) Hr') as [_ [Hr2 _]].
+        cbn [commits].
+        apply (IH s1 (p + len seg + 1)%Z a br pw (path_commit c u seg true) Hsp ltac:(blia)).
+        * rewrite Hr2. reflexivity.
+        * rewrite path_commit_special. exact Hgs.
+  Qed.
+
+  (* ---------------- HostnameSt ---------------- *)
+  Lemma step_hn_char_o p buf a br pw u x l :
+    ov = Some HostnameSt -> str_eqb (u_scheme u) s_file = false ->
+    all_good inp -> (-1 <= p)%Z -> rest (p + 1) = x :: l ->
+    ((x =? 58) && negb br) = false -> ((x =? 47) || (x =? 63) || (x =? 35)) = false ->
+    (IsSpecialScheme c u && (x =? 92)) = false -> x < 128 ->
+    stepo (mk HostnameSt p false buf a br pw u) = Cont (mk HostnameSt (p + 1) false (buf ++ [x]) a (br_next br x) pw u).
+  Proof using Hrep Hfail.
+    intros Hov Hnf Hgood Hp Hr H1 H2 H3 H4. destruct (rest_uncons inp (p + 1)%Z _ _ ltac:(lia) Hr) as [Hc [Hr' Hn]].
+    rewrite Hov. unfold_step. replace (n <=? p + 1)%Z with false by lia. cbv beta iota. rewrite Hc, Hnf.
+    cbn [andb orb]. rewrite H1. unfold isSpecialSchemeAndBackslash. rewrite H2, H3. cbn [orb].
+    rewrite (Utf8Proofs.utf8_enc_ascii x H4). unfold br_next.
+    destruct (rune_at inp (p + 1)) as [[g|b]|] eqn:E; try reflexivity.
+    exfalso. exact (Hgood _ _ E).
+  Qed.
+
+  Lemma step_hn_end_o p buf a br pw u host :
+    ov = Some HostnameSt -> str_eqb (u_scheme u) s_file = false ->
+    (-1 <= p)%Z -> rest (p + 1) = [] -> is_nil buf = false ->
+    parseHost idna_raw c u buf (negb (IsSpecialScheme c u)) = Ok u host ->
+    stepo (mk HostnameSt p false buf a br pw u) = RetUrl (set_host u (Some host)).
+  Proof using Hrep Hfail.
+    intros Hov Hnf Hp Hr Hb Hph. pose proof (rest_empty inp (p + 1)%Z ltac:(lia) Hr) as Hn.
+    rewrite Hov. unfold_step. replace (n <=? p + 1)%Z with true by lia. cbv beta iota. rewrite Hnf.
+    replace (rune_error =? 58) with false by reflexivity. cbn [andb orb]. rewrite Hb, andb_false_r. cbn [andb].
+    rewrite Hph. reflexivity.
+  Qed.
+
+  Lemma hn_loop_o : forall h p buf a br pw u tl,
+    ov = Some HostnameSt -> str_eqb (u_scheme u) s_file = false ->
+    all_good inp -> (-1 <= p)%Z -> rest (p + 1) = h ++ tl -> hscan (IsSpecialScheme c u) br h = true ->
+    forallb (fun x => x <? 128) h = true ->
+    reacheso (mk HostnameSt p false buf a br pw u) (mk HostnameSt (p + len h) false (buf ++ h) a (hbr br h) pw u).
+  Proof using Hrep Hfail.
+    induction h as [|x l IH]; intros p buf a br pw u tl Hov Hnf Hgood Hp Hr Hs Hl.
+    - rewrite len_nil, Z.add_0_r, app_nil_r. apply reacheso_refl.
+    - cbn [forallb] in Hl. apply andb_true_iff in Hl. destruct Hl as [Hx Hl].
+      cbn [hscan] in Hs. apply andb_true_iff in Hs. destruct Hs as [Hs Hs3].
+      apply andb_true_iff in Hs. destruct Hs as [Hs1 Hs2]. apply negb_true_iff in Hs1, Hs2.
+      apply orb_false_iff in Hs2. destruct Hs2 as [Hs2 Hs4].
+      cbn [app] in Hr. destruct (rest_uncons inp (p + 1)%Z x _ ltac:(lia) Hr) as [Hc [Hr' Hn]].
+      eapply reacheso_trans.
+      + eapply reacheso_step; [apply (step_hn_char_o p buf a br pw u x _ Hov Hnf Hgood Hp Hr Hs1 Hs2 Hs4 ltac:(lia))|reflexivity].
+      + eapply reacheso_eq; [apply (IH (p + 1)%Z _ a _ pw _ tl Hov Hnf Hgood ltac:(lia) Hr' Hs3 Hl)|].
+        rewrite len_cons, <- app_assoc. cbn [app hbr]. unfold br_next. f_equal. lia.
+  Qed.
+
+  Theorem hn_phase_o h u host :
+    ov = Some HostnameSt -> str_eqb (u_scheme u) s_file = false ->
+    all_good inp -> rest 0 = h -> h <> [] -> hscan (IsSpecialScheme c u) false h = true ->
+    forallb (fun x => x <? 128) h = true ->
+    parseHost idna_raw c u h (negb (IsSpecialScheme c u)) = Ok u host ->
+    finisheso (mk HostnameSt (-1) false [] false false false u) (set_host u (Some host)).
+  Proof using Hrep Hfail.
+    intros Hov Hnf Hgood Hr Hne Hs Hl Hph.
+    assert (Hr0 : rest (-1 + 1) = h ++ []) by (rewrite app_nil_r; exact Hr).
+    eapply reacheso_finisheso; [apply (hn_loop_o h (-1)%Z [] false false false u [] Hov Hnf Hgood ltac:(lia) Hr0 Hs Hl)|].
+    cbn [app]. pose proof (rest_app inp (-1 + 1)%Z _ _ ltac:(lia) Hr0) as Hr'.
+    replace (-1 + 1 + len h)%Z with (-1 + len h + 1)%Z in Hr' by ring. pose proof (len_nonneg h) as Hlen.
+    apply finisheso_ret. apply (step_hn_end_o (-1 + len h)%Z h false (hbr false h) false u host Hov Hnf ltac:(lia) Hr'); [|exact Hph].
+    destruct h; [congruence|reflexivity].
+  Qed.
+
+  (* ---------------- QuerySt under an override: everything up to the end is the query ---------------- *)
+  Theorem query_phase_o : forall fuel p buf a br pw u,
+    overridden ov = true ->
+    (-1 <= p)%Z -> (length (rest (p + 1)) + 1 <= fuel)%nat ->
+    runo fuel (mk QuerySt p false buf a br pw u) = RUrl (set_query u (Some (buf ++ enc_with c (queryset c u) (rest (p + 1))))).
+  Proof using Hrep Hfail.
+    induction fuel as [|f IH]; intros p buf a br pw u Hov Hp Hf; [lia|].
+    destruct (n <=? p + 1)%Z eqn:E.
+    - assert (En : (n <= p + 1)%Z) by lia.
+      rewrite (run_last idna_raw c inp None ov f _ _ (step_query_end idna_raw c Hrep Hfail inp None ov p buf a br pw u En)) by reflexivity.
+      rewrite (PhaseLemmas.rest_nil c Hrep Hfail inp) by lia. cbn [mk m_url enc_with flat_map]. rewrite app_nil_r. reflexivity.
+    - assert (En : (p + 1 < n)%Z) by lia.
+      assert (E35 : negb (overridden ov) && (cp_at inp (p + 1) =? 35) = false) by (rewrite Hov; reflexivity).
+      rewrite (run_cont idna_raw c inp None ov f _ _ (step_query_mid idna_raw c Hrep Hfail inp None ov p buf a br pw u En E35)) by reflexivity.
+      rewrite (PhaseLemmas.rest_cons c Hrep Hfail inp (p + 1)) in Hf |- * by lia. cbn [length] in Hf.
+      rewrite IH by (try exact Hov; lia). rewrite enc_with_cons, app_assoc. reflexivity.
+  Qed.
+End OV.
+
+(* ------------------------------------------------------------------------------------------ *)
+(* the four setters of the repeated block, evaluated                                            *)
+(* ------------------------------------------------------------------------------------------ *)
+Section Eval.
+  Variable idna_raw : str -> str * bool.
+  Variable c : cfg.
+  Hypothesis Hrep : c_report c = false.
+  Hypothesis Hfail : c_fail c = false.
+
+  Lemma BP_ov_printable s u st :
+    forallb printable s = true ->
+    BasicParser idna_raw c s None (Some u) (Some st) =
+    run idna_raw c (map Good s) None (Some st) (fuel_of (length (map Good s)))
+        (mk st (-1) false [] false false false (set_input u s)).
+  Proof using All.
+    intros H. unfold BasicParser. cbn [u_input set_input]. unfold remove_tabnl_sv. rewrite (remove_tabnl_id s H).
+    cbn [andb]. cbn [u_input set_input option_map]. rewrite (decode_printable s H). reflexivity.
+  Qed.
+
+  Lemma fuel_of_enough k : (k + 1 <= fuel_of k)%nat.
+  Proof using All. unfold fuel_of. lia. Qed.
+
+  (* SetHash on a text that does not start with '#' *)
+  Theorem SetHash_eval u x s :
+    (x =? 35) = false -> forallb printable (x :: s) = true ->
+    SetHash idna_raw c u (x :: s) =
+    Some (set_fragment (set_input u (x :: s)) (Some (enc_with c (fragset c u) (x :: s)))).
+  Proof using All.
+    intros Hx Hp. unfold SetHash. cbn [trim_prefix1]. rewrite Hx. rewrite (BP_ov_printable _ _ _ Hp).
+    rewrite (fragment_phase idna_raw c Hrep Hfail (map Good (x :: s)) None (Some FragmentSt)).
+    - change (-1 + 1)%Z with 0%Z. rewrite rest_map_good. reflexivity.
+    - lia.
+    - change (-1 + 1)%Z with 0%Z. rewrite rest_map_good, map_length. apply fuel_of_enough.
+  Qed.
+
+  (* SetSearch on "?" ++ qs when the record has a query *)
+  Theorem SetSearch_eval u q0 qs :
+    u_query u = Some q0 -> forallb printable qs = true ->
+    SetSearch idna_raw c u (63 :: qs) =
+    Some (set_sp (set_query (set_input u qs) (Some (enc_with c (queryset c u) qs)))
+                 (Some (sp_init c (enc_with c (queryset c u) qs)))).
+  Proof using All.
+    intros Hq Hp. unfold SetSearch. cbn [trim_prefix1]. replace (63 =? 63) with true by reflexivity. rewrite Hq.
+    rewrite (BP_ov_printable _ _ _ Hp).
+    rewrite (query_phase_o idna_raw c Hrep Hfail (map Good qs) (Some QuerySt)).
+    - change (-1 + 1)%Z with 0%Z. rewrite rest_map_good. reflexivity.
+    - reflexivity.
+    - lia.
+    - change (-1 + 1)%Z with 0%Z. rewrite rest_map_good, map_length. apply fuel_of_enough.
+  Qed.
+
+  Lemma pathname_printable sp segs :
+    (33 <=? ab (c_pathSet c)) = true -> segs_text_ok c sp segs = true -> forallb printable (pathname_of segs) = true.
+  Proof using All.
+    intros Hab H. induction segs as [|s segs IH]; [reflexivity|].
+    unfold segs_text_ok in H. cbn [forallb] in H. apply andb_true_iff in H. destruct H as [Hs Hr].
+    change (pathname_of (s :: segs)) with (47 :: s ++ pathname_of segs). cbn [forallb]. rewrite forallb_app, (IH Hr), andb_true_r.
+    replace (printable 47) with true by reflexivity. cbn [andb]. rewrite forallb_forall in *. intros x Hx. specialize (Hs x Hx).
+    apply vis_printable. unfold path_char in Hs. apply andb_true_iff in Hs. destruct Hs as [_ Hs]. apply negb_true_iff in Hs.
+    apply (not_encoded_vis _ _ Hab Hs).
+  Qed.
+
+  (* SetPathname on "/" seg "/" seg ... *)
+  Theorem SetPathname_eval u seg segs :
+    c_singlePct c = false -> c_collapse c = false -> (33 <=? ab (c_pathSet c)) = true ->
+    u_opaque u = false -> str_eqb (u_scheme u) s_file = false ->
+    segs_text_ok c (IsSpecialScheme c u) (seg :: segs) = true ->
+    SetPathname idna_raw c u (pathname_of (seg :: segs)) =
+    Some (set_path (set_input u (pathname_of (seg :: segs))) (norm_segs (seg :: segs)) false).
+  Proof using All.
+    intros Hsp Hcol Hab Ho Hnf Hg. unfold SetPathname. rewrite Ho.
+    pose proof (pathname_printable _ _ Hab Hg) as Hp. rewrite (BP_ov_printable _ _ _ Hp).
+    set (s := pathname_of (seg :: segs)) in *. set (u' := set_input (set_path u [] false) s).
+    assert (F : finisheso idna_raw c (map Good s) (Some PathStart) (mk PathStart (-1) false [] false false false u')
+                  (commits c u' seg segs)).
+    { assert (R0 : rest_from (map Good s) (-1 + 1) = 47 :: seg ++ pathname_of segs) by (change (-1 + 1)%Z with 0%Z; rewrite rest_map_good; reflexivity).
+      eapply reacheso_finisheso.
+      - eapply reacheso_step; [apply (step_pathstart_slash_o idna_raw c Hrep Hfail _ _ (-1)%Z [] false false false u' _ ltac:(lia) R0)|reflexivity].
+      - destruct (rest_uncons _ (-1 + 1)%Z _ _ ltac:(lia) R0) as [_ [R1 _]].
+        apply (path_phase_o idna_raw c Hrep Hfail _ _ segs seg (-1 + 1)%Z false false false u' Hsp ltac:(lia) R1). exact Hg. }
+    rewrite (finisheso_fuel idna_raw c _ _ _ _ _ F). cbn [after].
+    rewrite (commits_norm c segs seg u' Hcol Hnf eq_refl). reflexivity.
+  Qed.
+
+  (* SetHostname on a host text that the host parser accepts *)
+  Theorem SetHostname_eval u h host :
+    u_opaque u = false -> str_eqb (u_scheme u) s_file = false ->
+    h <> [] -> forallb printable h = true -> hscan (IsSpecialScheme c u) false h = true ->
+    parseHost idna_raw c (set_input u h) h (negb (IsSpecialScheme c u)) = Ok (set_input u h) host ->
+    SetHostname idna_raw c u h = Some (set_host (set_input u h) (Some host)).
+  Proof using All.
+    intros Ho Hnf Hne Hp Hs Hph. unfold SetHostname. rewrite Ho. rewrite (BP_ov_printable _ _ _ Hp).
+    assert (Hl : forallb (fun x => x <? 128) h = true).
+    { rewrite forallb_forall. intros x Hx. pose proof (printable_small h Hp) as Hf. rewrite Forall_forall in Hf.
+      specialize (Hf x Hx). lia. }
+    pose proof (hn_phase_o idna_raw c Hrep Hfail (map Good h) (Some HostnameSt) h (set_input u h) host eq_refl Hnf
+                  (all_good_map h) (rest_map_good h) Hne Hs Hl Hph) as F.
+    rewrite (finisheso_fuel idna_raw c _ _ _ _ _ F). reflexivity.
+  Qed.
+End Eval.
+
+Print Assumptions SetHash_eval.
+Print Assumptions SetSearch_eval.
+Print Assumptions SetPathname_eval.
+Print Assumptions SetHostname_eval.
